@@ -5,6 +5,7 @@ HARNESS = {
     "h_posit": dict(src="h_posit.cpp"),
     "h_quire": dict(src="h_quire.cpp"),
     "h_pconv": dict(src="h_pconv.cpp"),
+    "h_hist": dict(src="h_hist.cpp"),
     "h_threads": dict(src="h_threads.cpp", flags=["-pthread"]),
     "h_threads_tsan": dict(src="h_threads.cpp", flags=["-pthread", "-g", "-fsanitize=thread"]),
     "h_posit_san": dict(src="h_posit.cpp", flags=SAN + ["-DUV_SAN_SMALL"]),
@@ -123,8 +124,10 @@ CONTRIB = {
         assumptions=["hardware multiplication of exactly representable factors with exactly representable product is exact"],
     ),
     "C06": dict(
-        harness=["h_posit"],
-        streams=posit_streams("order", 3, 20000, 300000),
+        harness=["h_posit", "h_hist"],
+        streams=lambda tier, seed, exes: posit_streams("order", 3, 20000, 300000)(tier, seed, exes) + [
+            dict(exe=exes["h_hist"], args=["3000" if tier == "quick" else "60000"], env={"VERIF_SEED": str(seed * 10 + k)},
+                 label=f"operation histories then == against a fresh object (integer, fixpnt) shard {k}") for k in range(1 if tier == "quick" else 6)],
         proof_modules=["UVerifProofs.Props.C06"],
         level="proof",
         level_text="comparison operators of the model vs. the real order of the decoded values; ++/-- vs. the adjacent encoding; all ordered pairs of small configurations",
